@@ -242,6 +242,30 @@ def run(ctx, rep):
                                       "ill-typed witness reaches this point and panics instead of returning an error" % cs.name, cs.where())
                     else:
                         rep.ok("C12.nopanic", who + ":" + cs.name, "unreachable: every producer is type-checked")
+    # ---------- a failed finalisation is an error, not a panic, wherever the types come from outside ----------
+    n_fin = 0
+    for f in sorted(F.fns.values(), key=lambda x: x.path):
+        if not (f.impl_trait == CONVERTER and target_marker(f) == REDEEM):
+            continue
+        if "prune_with_tracker" in f.path:
+            continue   # starts from a finalised RedeemNode; its re-inference is C08's business (findings/NOTES.md)
+        who = (f.impl_self or f.path).replace("simplicity::", "") + "::" + f.name
+        fi = F.inlined(f)
+        Tn = Terms(fi, transparent={k: v for k, v in fm.TRANSPARENT_CALLS.items() if k not in ("expect", "unwrap")})
+        fin_calls = [cs for cs in fi.calls() if cs.name == "finalize" and "simplicity::types" in (cs.callee or "")]
+        for cs in fi.calls():
+            if cs.name in ("expect", "unwrap") and cs.args:
+                inner_t = Tn.operand(cs.args[0])
+                if any(c[2] == "finalize" and "simplicity::types" in c[1] for c in calls_in(inner_t)):
+                    n_fin += 1
+                    rep.violation("C12.nopanic", who + ":finalize:" + cs.name, "%s() on the result of Type/Arrow::finalize in %s: the occurs check runs only at "
+                                  "finalisation, so a program (from bytes or from the construction API) whose type is infinite panics here "
+                                  "instead of being reported" % (cs.name, who), cs.where())
+        for cs in fin_calls:
+            if not any(c.name in ("expect", "unwrap") and cs.dest[0] in {x[0] for x in [a.get("p", [None]) for a in c.args] if x} for c in fi.calls()):
+                n_fin += 1
+                rep.ok("C12.nopanic", who + ": finalize result propagated", None)
+    rep.count("finalize_results_in_redeem_converters", n_fin)
     # ---------- routes ----------
     routes = {
         "simplicity::node::construct::<impl simplicity::node::Node<simplicity::node::construct::Construct<'brand>>>::finalize_unpruned": ["convert"],
